@@ -503,6 +503,120 @@ def World.disps (pi I : F) (w : World F) (logs : List (Fin 6 → F)) : List (Vec
 
 end obj
 
+/-! ### API level: signature, option handling and order of `VolterraDislocation.solve` (round 5)
+
+    The generated `Atomman/Generated/StrohSource.lean` re-derives every definition of this section (and the Stroh /
+    orientation formulas above) from the CURRENT source with `ast`; `Proofs/C12_Source.lean` proves generated = model. -/
+
+/-- parameters (after `self`) of `VolterraDislocation.__init__` / `.solve`, `Stroh.solve`, `IsotropicVolterraDislocation.solve`
+    and `solve_volterra_dislocation`, with their defaults as source text (`""` = no default). -/
+def solveSig : List (String × String) :=
+  [("C", ""), ("burgers", ""), ("ξ_uvw", "None"), ("slip_hkl", "None"), ("transform", "None"), ("axes", "None"),
+   ("box", "None"), ("m", "'x'"), ("n", "'y'"), ("cart_axes", "False"), ("tol", "1e-08")]
+
+/-- how every layer hands the arguments on: `C`, `burgers` by position, every other parameter by keyword under its own
+    name (`name=name`). -/
+def forwardOf (sig : List (String × String)) : List String × List (String × String) :=
+  ((sig.take 2).map Prod.fst, (sig.drop 2).map fun p => (p.1, p.1))
+
+/-- the value bound to the local `transform` of `VolterraDislocation.solve` as it moves through the option handling. -/
+inductive TVal (M : Type) where
+  | raw (x : M)        -- the caller's array (from `transform=` or `axes=`), not yet checked
+  | checked (x : M)    -- after `axes_check` (rows normalised, orthogonality / handedness tested)
+  | miller             -- built by `__find_transform(ξ_uvw, slip_hkl, m, n, box)`
+  | eye                -- `np.eye(3)`
+deriving Repr, DecidableEq
+
+def TVal.check {M : Type} : TVal M → TVal M
+  | .raw x => .checked x
+  | t => t
+
+/-- option handling of `VolterraDislocation.solve`: `ξ`, `hkl` = "`ξ_uvw` / `slip_hkl` is not None"; Miller indices need
+    both and exclude `transform` / `axes`; `axes` is an alias of `transform` (both given: refused); nothing given: the
+    identity.  Every refusal is an `AssertionError`. -/
+def routeOf {M : Type} (ξ hkl : Bool) (transform axes : Option M) : Except String (TVal M) :=
+  match ξ, hkl, transform, axes with
+  | true, true, none, none => .ok .miller
+  | false, false, none, none => .ok .eye
+  | false, false, some t, none => .ok (.checked t)
+  | false, false, none, some a => .ok (.checked a)
+  | _, _, _, _ => .error "assert"
+
+/-- `axis_value`: the strings `'x' 'y' 'z'` stand for the Cartesian axes (and skip every check). -/
+def axisOfStr [NatCast F] (s : String) : Option (Vec F) :=
+  let one : F := ((1 : Nat) : F)
+  let zero : F := ((0 : Nat) : F)
+  if s = "x" then some fun i => if i.val = 0 then one else zero
+  else if s = "y" then some fun i => if i.val = 1 then one else zero
+  else if s = "z" then some fun i => if i.val = 2 then one else zero
+  else none
+
+section base
+variable [Add F] [Sub F] [Mul F] [Div F] [Neg F] [Zero F] [One F] [LE F] [DecidableLE F] [LT F] [DecidableLT F]
+
+/-- what `axis_value` asserts for one axis: nothing for a string, unit norm (and Cartesian alignment under `cart_axes`)
+    for an array. -/
+def axisOk (tol : F) (cart isStr : Bool) (a : Vec F) : Bool :=
+  isStr || (unitOk tol a && (!cart || cartAligned tol a))
+
+/-- `axes_check(axes)` as a partial function: the normalised rows, or `ValueError`. -/
+def axesCheck (tol rtol : F) (ax : Mat F) (norms : Vec F) : Except String (Mat F) :=
+  let u := unitAxes ax norms
+  if !(axesOrthOk tol rtol u) then .error "value" else if !(axesRightOk tol rtol u) then .error "value" else .ok u
+
+/-- everything `VolterraDislocation.solve` is handed (numpy's `norm` of rows and the Miller → Cartesian conversions of
+    property C16 are parameters). -/
+structure BaseIn (F : Type) where
+  tol : F                     -- the solver's `tol`
+  tolAx : F                   -- default `tol` of `axes_check` and of `ElasticConstants.transform` (both called without one)
+  rtol : F                    -- numpy's default `rtol` of `allclose`
+  cart : Bool
+  mStr : Bool
+  nStr : Bool
+  m : Vec F
+  n : Vec F
+  ξ : Bool
+  hkl : Bool
+  transform : Option (Mat F)
+  axes : Option (Mat F)
+  norms : Vec F               -- row norms of the array given as `transform=` / `axes=`
+  norms2 : Vec F              -- row norms of the final transform (`ElasticConstants.transform` normalises again)
+  nAxis : Vec F
+  ξAxis : Vec F
+  vects : Mat F
+  c : Fin 6 → Fin 6 → F
+  b : Vec F
+
+structure BaseOut (F : Type) where
+  T : Mat F
+  c : Fin 6 → Fin 6 → F
+  b : Vec F
+
+/-- the orientation matrix the route leads to. -/
+def baseTransform (a : BaseIn F) : Except String (Mat F) :=
+  match routeOf a.ξ a.hkl a.transform a.axes with
+  | .error e => .error e
+  | .ok (.checked x) => axesCheck a.tolAx a.rtol x a.norms
+  | .ok .miller => .ok (findTransform a.m a.n a.nAxis a.ξAxis)
+  | .ok .eye => .ok fun i j => kron i j
+  | .ok (.raw _) => .error "unreachable"
+
+/-- `VolterraDislocation.solve` in the order of the source: axis checks (`AssertionError`), option handling
+    (`AssertionError`), `axes_check` (`ValueError`), Burgers vector to the solver frame with its clean-up, then
+    `C.transform` (which runs `axes_check` once more: `ValueError` for a Miller line outside the Miller plane). -/
+def baseSolve (a : BaseIn F) : Except String (BaseOut F) :=
+  if !(axisOk a.tol a.cart a.mStr a.m) then .error "assert" else
+  if !(axisOk a.tol a.cart a.nStr a.n) then .error "assert" else
+  if !(decide (-a.tol ≤ dot a.m a.n) && decide (dot a.m a.n ≤ a.tol)) then .error "assert" else
+  match baseTransform a with
+  | .error e => .error e
+  | .ok T =>
+    match axesCheck a.tolAx a.rtol T a.norms2 with
+    | .error e => .error e
+    | .ok T2 => .ok ⟨T, orientC a.tolAx T2 a.c, orientB a.tol T a.vects a.b⟩
+
+end base
+
 /-! ### helpers for the driver -/
 
 def vecOfList [Zero F] (l : List F) : Vec F := fun i => l.getD i.val 0
